@@ -938,9 +938,15 @@ def r27_dur_table(ctx):
     other = [x for x in strabs.shapes(ctx, f)
              if not isinstance(x, strabs.Str)]
     if other or not shapes:
-        rep.error("R27", "Duration.__str__: a returned value is not a "
-                  "string assembled from constants and formatted fields "
-                  "(%s)" % other[:3])
+        # the writer is there but builds its text in a way the string
+        # abstraction does not follow (pieces collected in a list, ...):
+        # nothing is decided about it - and nothing is claimed
+        rep.anchor(rule, "duration notations")
+        rep.undecided(rule, ctx.fkey(f, None, "writer-shapes"), f.loc(),
+                      "Duration.__str__ returns a value that is not a "
+                      "string assembled from constants and formatted "
+                      "fields in a way this rule reads (%s): the writer / "
+                      "reader agreement is not decided" % other[:3], P)
         return
     seqs = {sh: strabs.unit_sequence(sh) for sh in shapes}
     unit_forms = [sq for sq in seqs.values() if sq and sq[0] == (None, "P")
